@@ -83,6 +83,7 @@ def a(name, **kw):
 
 UNIT = dict(
     name='monotone',
+    auto_helpers=True,
     lemma_props={'lemma_resident_forever': ['C03'], '*': ['C03']},
     prelude=['prelude.rs', 'prelude_float.rs'],
     items=COMMON + UTILS_STUBS + SCORE_STUBS + [AC.SPEC_MIN, GROW_SPEC,
